@@ -591,6 +591,11 @@ func (p *placer) place(req Request, start int, name string, allow func(node stri
 		}
 		// sharing request: pick req.Devices distinct groups with room, opening new ones on free devices
 		devMem := c.GPUMem
+		if req.GPUMem > 0 {
+			// gpu-memory requests are judged against the label as the scheduler reads it (floored to 100 MiB): initial
+			// states are states the scheduler could have produced
+			devMem -= devMem % 100
+		}
 		if devMem == 0 {
 			devMem = 100
 		}
